@@ -268,3 +268,10 @@ _quick("C17", "C17_recycle", "5..8 keys with values on a fast key table of 4 slo
 _quick("C09", "C09_publish", "every program of 4 persisted operations (LOCK / LOCK with a value / one-level UNLOCK on two keys) through LockDB, AofChannel, Aof.PushLock with rotation after two records: the records read back from the log files and the records a cursor pops from the replication ring are the same sequence with the same values", ["-witness", "20"], reach=["end", "rotated"])
 
 _quick("C09", "C09_converge", "every leader program of 4 persisted operations (LOCK / LOCK with a value / one-level UNLOCK / full UNLOCK on two keys); a follower-state instance applies the records popped from the ring (Aof.LoadLock); keys, LockIds, depths and values compared with the leader", ["-witness", "50"], reach=["end", "held", "valued"])
+
+_quick("C15", "C15_pipeline", "optionally one prior value operation, then one LOCK carrying a PIPELINE of 2 value operations (SET / UNSET / INCR / APPEND / SHIFT / PUSH / POP matching the running kind, payloads 1..3 symbolic bytes) assembled with the real constructor: reply shows the value before the pipeline, stored value is the sequential result", ["-witness", "50"])
+_thorough("C15", "C15_pipeline3", "as C15_pipeline with 3 operations in the pipeline", ["-witness", "200"])
+
+_quick("C05", "C05_msfrac", "a queued request with the millisecond flag, T in {2999, 3000, 3300, 3999, 6001, 7900} ms, arriving 0 / 150 / 850 / 999 ms after the server's second; slot sweeper run at its wake time, then the real per-second sweeps: exactly one TIMEOUT, not before T ms after the arrival and within T + 2 s (symbolic executor only: the sweeper is a sleeping goroutine natively)", ["-witness", "0"], native=False)
+_quick("C06", "C06_msfrac", "a hold with the millisecond flag, E in {2999, 3000, 3300, 3999, 6001, 7900} ms, granted 0 / 150 / 850 / 999 ms after the server's second: exactly one EXPRIED, not before E ms after the grant and within E + 2 s (symbolic executor only)", ["-witness", "0"], native=False)
+_quick("C06", "C06_msrelock", "a hold with a millisecond expiry E in {500, 1500, 2999} ms and Rcount 3, re-locked re-entrantly with the same terms at E/2 or E-1 ms; the sweeper of the original slot runs at E ms, later sweepers and per-second sweeps follow: exactly one EXPRIED in [re-lock + E, re-lock + E + 2 s] (symbolic executor only)", ["-witness", "0"], reach=["relocked"], native=False)
